@@ -6,7 +6,7 @@ reference model (z80ref.step) runs on the expected image; every simulator runs o
 own memory; afterwards registers, F (under the documented-bits mask), PC, T, the
 port log and the *whole* 64K memory are compared, and all touched cells restored.
 """
-from . import simh
+from . import core, simh
 from .refs import z80ref
 
 
@@ -97,7 +97,15 @@ class Engine:
         fmask = res.fmask if mask_override is None else (res.fmask & mask_override)
         self.last_T = {}
         for k in self.kinds:
-            sim = self.run_sim(k, st)
+            try:
+                sim = self.run_sim(k, st)
+            except core.Horizon:
+                raise
+            except Exception as e:
+                # the simulator itself raised on an in-domain state: a violation, not a harness failure
+                out.append('{}: simulator raised {}: {}'.format(k, type(e).__name__, e))
+                self.hard_reset_memory(k)
+                continue
             r = sim.registers
             self.last_T[k] = int(r[25]) - st.T
             for n in simh.NAMES:
